@@ -16,6 +16,7 @@ pub mod c13;
 pub mod c15;
 pub mod c16;
 pub mod c17;
+pub mod c18;
 pub mod c19;
 
 pub fn run(ctx: &Ctx) -> i32 {
@@ -36,6 +37,7 @@ pub fn run(ctx: &Ctx) -> i32 {
         "C15" => c15::run(ctx),
         "C16" => c16::run(ctx),
         "C17" => c17::run(ctx),
+        "C18" => c18::run(ctx),
         "C19" => c19::run(ctx),
         _ => {
             eprintln!("machinery error: no check registered for {}", ctx.prop);
@@ -73,6 +75,7 @@ pub fn replay(ctx: &Ctx, path: &str) -> i32 {
         "C15" => c15::replay(ctx, &body),
         "C16" => c16::replay(ctx, &body),
         "C17" => c17::replay(ctx, &body),
+        "C18" => c18::replay(ctx, &body),
         "C19" => c19::replay(ctx, &body),
         _ => {
             eprintln!("machinery error: no replay registered for {}", ctx.prop);
